@@ -286,7 +286,7 @@ func (in *inst) applyContract(n *vnode, st *State, ct *Contract, callee string, 
 		ce.vars[l[0]] = ce.eval(l[1])
 	}
 	for _, r := range ct.Requires {
-		t := ce.evalSpec(r.Expr)
+		t := ce.evalGoal(r.Expr)
 		id := fmt.Sprintf("%s#pre:%s.%s@%s", funcKey(fv.top), callee, r.Name, in.posKey(pos, n))
 		fv.oblige(id, "pre", in.propsFor(nil), st.reach, t, r.Expr, pos)
 	}
@@ -328,7 +328,7 @@ func (in *inst) applyContract(n *vnode, st *State, ct *Contract, callee string, 
 		ce2.vars["result"] = vs[0]
 	}
 	for _, e := range ct.Ensures {
-		t := ce2.evalSpec(e.Expr)
+		t := ce2.evalAssume(st.reach, e.Expr)
 		fv.assume(st.reach, t)
 	}
 	if ce.err != nil {
@@ -989,7 +989,7 @@ func (in *inst) cutHeader(n *vnode, l *loopInfo, edges []*vedge, conds []string)
 	// inv-init
 	ce := in.headerEnv(n, l, pin, st)
 	for _, iv := range ls.Invariants {
-		t := ce.evalSpec(iv.Expr)
+		t := ce.evalGoal(iv.Expr)
 		fv.oblige(fmt.Sprintf("%s#inv-init:%s@loop%d", funcKey(in.fn), iv.Name, l.ord), "inv-init", in.propsFor(iv), st.reach, t, iv.Expr, l.header.Instrs[0].Pos())
 	}
 	if ce.err != nil {
@@ -1021,7 +1021,7 @@ func (in *inst) cutHeader(n *vnode, l *loopInfo, edges []*vedge, conds []string)
 	}
 	ce2 := in.headerEnv(n, l, pnew, st)
 	for _, iv := range ls.Invariants {
-		fv.assume(st.reach, ce2.evalSpec(iv.Expr))
+		fv.assume(st.reach, ce2.evalAssume(st.reach, iv.Expr))
 	}
 	if ce2.err != nil {
 		fv.specErr(ce2.err)
@@ -1058,13 +1058,13 @@ func (in *inst) invStep(n *vnode, edges []*vedge, conds []string) {
 	ce.it0vars = snap.vars
 	pos := l.header.Instrs[0].Pos()
 	for _, iv := range ls.Invariants {
-		t := ce.evalSpec(iv.Expr)
+		t := ce.evalGoal(iv.Expr)
 		fv.oblige(fmt.Sprintf("%s#inv-step:%s@loop%d", funcKey(in.fn), iv.Name, l.ord), "inv-step", in.propsFor(iv), st.reach, t, iv.Expr, pos)
 	}
 	for _, sc := range ls.Steps {
 		ce.vars["exited"] = bval("false")
 		ce.vars["continued"] = bval("true")
-		t := ce.evalSpec(sc.Expr)
+		t := ce.evalGoal(sc.Expr)
 		fv.oblige(fmt.Sprintf("%s#step:%s@loop%d", funcKey(in.fn), sc.Name, l.ord), "step", in.propsFor(sc), st.reach, t, sc.Expr, pos)
 	}
 	if ce.err != nil {
